@@ -899,6 +899,7 @@ def extract() -> dict[str, Any]:
     res["names"] = {c: nm for c, nm in ex.names.items() if c in res["schemas"]}
     res["format_fields"] = format_fields(ex, res["names"])
     res["set_fields"] = set_fields(ex)
+    res["fixup_assigns"] = fixup_assigns()
     res["json_field_map"] = json_field_map(ex, res["names"])
     res["json_schemas"] = {c: js for c in sorted(res["names"]) if (js := derived_json_schema(res, c)) is not None}
     res["class_names"] = sorted(ex.classes)
@@ -1159,6 +1160,65 @@ def zs(x: str) -> str:
     return "[" + "; ".join(str(ord(c)) for c in x) + "]"
 
 
+# what the attribute-wise walk of the structural round trip (tools/harness/C11.py, walk_flags/type_detail) compares for
+# every attribute or rebuilding call of mypy/fixup.py; a fixup responsibility that is not listed here breaks
+# the table theorem fixup_assigns_covered
+WALK_COVERAGE = {
+    "alias_tvars": "special_alias / TypeAlias record: alias_tvars",
+    "tvar_tuple_index": "special_alias / TypeAlias record: tvar_tuple_index",
+    "mro": "TypeInfo record: mro (fullnames)",
+    "_mro_refs": "TypeInfo record: mro_refs_pending (must be None)",
+    "append:_promote": "TypeInfo record: promote",
+    "call:update_tuple_type": "TypeInfo record: tuple_type (+partial_fallback, type_detail) and special_alias",
+    "call:update_typeddict_type": "TypeInfo record: typeddict_type (+fallback, type_detail) and special_alias",
+    "cross_ref": "symbol record: cross_ref after node access, class and fullname of the resolved node",
+    "unfixed": "symbol record: bool attributes of SymbolTableNode",
+    "_node": "symbol record: class / fullname of sym.node",
+    "stored_info": "node record: info (fullname of the enclosing TypeInfo of lazily read nodes)",
+    "definition": "node record: definition / links (fullname of CallableType.definition)",
+    "type_ref": "tstr / type_detail: UNRESOLVED marker when a type_ref is still pending",
+    "type": "str(type) prints Instance.type.fullname; bases, mro",
+    "alias": "type_detail: alias->fullname of TypeAliasType.alias",
+    "special_alias": "TypeInfo record: special_alias (lookup_fully_qualified_alias builds it on demand)",
+    "bases": "TypeInfo record: bases (missing_info placeholder: daemon / allow_missing only)",
+    "fullname": "node record: _fullname (missing_info placeholder)",
+}
+MUTATORS = {"append", "extend", "insert", "add", "update", "pop", "remove", "clear", "setdefault", "discard", "sort", "reverse"}
+
+
+def fixup_assigns() -> list[str]:
+    """every attribute mypy/fixup.py assigns (or rebuilds through a mutating call) on nodes and types; fail-closed"""
+    tree = ast.parse(vlib.read_repo("mypy/fixup.py"))
+    out: set[str] = set()
+    for n in ast.walk(tree):
+        targets: list[ast.AST] = []
+        if isinstance(n, ast.Assign):
+            targets = list(n.targets)
+        elif isinstance(n, (ast.AugAssign, ast.AnnAssign)):
+            targets = [n.target]
+        elif isinstance(n, ast.Delete):
+            raise Unsupported(f"fixup.py: del statement {src(n)[:60]}")
+        for t in targets:
+            for x in (t.elts if isinstance(t, ast.Tuple) else [t]):
+                if isinstance(x, ast.Attribute):
+                    if not (isinstance(x.value, ast.Name) and x.value.id == "self"):
+                        out.add(x.attr)
+                elif isinstance(x, ast.Subscript):
+                    raise Unsupported(f"fixup.py: item assignment {src(x)[:60]}")
+        if isinstance(n, ast.Call):
+            f = n.func
+            if isinstance(f, ast.Name) and f.id in ("setattr", "delattr"):
+                raise Unsupported(f"fixup.py: {src(n)[:60]}")
+            if isinstance(f, ast.Attribute):
+                if f.attr in MUTATORS and isinstance(f.value, ast.Attribute):
+                    out.add(f"{f.attr}:{f.value.attr}")
+                elif f.attr in MUTATORS and isinstance(f.value, ast.Name) and f.value.id not in ("self",):
+                    raise Unsupported(f"fixup.py: mutation of a local container {src(n)[:60]}")
+                elif f.attr.startswith(("update_", "set_", "reset_", "add_")):
+                    out.add("call:" + f.attr)
+    return sorted(out)
+
+
 def set_fields(ex: Extractor) -> list[tuple[str, str, bool, bool]]:
     """(class, field, sorted in write(), sorted in serialize()) for every attribute declared as a set that the
     class serializes: hash-order independence requires every such use to go through sorted(...)"""
@@ -1263,6 +1323,10 @@ def render(res: dict[str, Any]) -> str:
     out.append(";\n".join(f'  ("{c}"%string, ({sl(js)}, {sl(bn)}, {sl(FORMAT_EXCEPTIONS.get(c, []))}))'
                           for c, (js, bn) in sorted(res["format_fields"].items())))
     out.append("].")
+    out.append("")
+    out.append("(* every attribute mypy/fixup.py assigns or rebuilds, and what the structural walk covers *)")
+    out.append("Definition fixup_assigns : list string := " + sl(res["fixup_assigns"]) + ".")
+    out.append("Definition walk_coverage : list string := " + sl(sorted(WALK_COVERAGE)) + ".")
     out.append("")
     out.append("(* attributes declared as sets that are serialized: (class, field, sorted in write(), sorted in serialize()) *)")
     out.append("Definition set_fields : list (string * string * (bool * bool)) := [")
